@@ -3,7 +3,7 @@
 Specification: spec/TextWriters.tla (CSV: a header row for every run of records of one descriptor, then one row per
 record; line: one numbered block per record with one line per selected field; text: one item per record; field
 selection by fields / exclude) -- TLC checks RowPerRecord, HeaderPerRun, BlockNumbering over all descriptor sequences
-<= 5 x 6 option sets -- and spec/Trace_Text.tla.
+<= 5 x 7 option sets -- and spec/Trace_Text.tla.
 Binding: (a) all descriptor sequences <= 4 over {A, A2 (same name, other fields), B} x option sets are written through
 the real CSV, line and text writers and the output is parsed independently (csv.reader / block splitter); TLC compares
 the structure with the model.  (b) for every field type x value class (delimiters, quotes, CR / LF / CRLF, leading
@@ -20,7 +20,8 @@ PROP = "C20"
 RES = ["_source", "_classification", "_generated", "_version"]
 OPTS = [{"fields": [], "excl": []}, {"fields": ["s", "n"], "excl": []}, {"fields": [], "excl": ["_generated", "s"]}, {"fields": ["other", "n", "bogus"], "excl": ["s"]},
         {"fields": ["s", "n", "other"], "excl": ["s", "bogus"]},         # a requested field that is also excluded
-        {"fields": ["other"], "excl": []}]                               # leaves some record types without any field (line writer: the block is still there)
+        {"fields": ["other"], "excl": []},
+        {"fields": ["s", "n"], "excl": ["n", "s", "other"]}]             # every requested field is also excluded: nothing is left for any type                               # leaves some record types without any field (line writer: the block is still there)
 
 
 def descs():
@@ -96,7 +97,7 @@ def run(tier):
 
     ctx = check.Ctx(PROP, tier)
     thorough = tier == "thorough"
-    ctx.design("TextWriters", "MC_TextWriters.cfg", "all descriptor sequences <= 5 over {A, A2, B} x 6 option sets", workers=8)
+    ctx.design("TextWriters", "MC_TextWriters.cfg", "all descriptor sequences <= 5 over {A, A2, B} x 7 option sets", workers=8)
     ctx.sensitivity("TextWriters", "MC_TextWriters_dev.cfg", "a header only before the first record must violate HeaderPerRun", "HeaderPerRun", workers=4)
     D = descs()
     tmp = common.scratch("c20")
@@ -125,7 +126,7 @@ def run(tier):
             for writer in ("csv", "line", "text"):
                 if writer == "text" and oi:
                     continue
-                if writer == "csv" and o["fields"] == ["other"]:
+                if writer == "csv" and (o["fields"] == ["other"] or set(o["fields"]) <= set(o["excl"]) and o["fields"]):
                     continue      # rows without any column cannot be told from blank lines by a CSV parser
                 p = os.path.join(tmp, "o." + writer)
                 url = {"csv": "csvfile://", "line": "line://", "text": "text://"}[writer] + p + (url_opts(o) if writer != "text" else "")
